@@ -7,7 +7,8 @@
   other `scale.*` streams (`scale.shape/text/image/reject/dotted`, `scale.adapter` with other jobs)
   have no model: oracle only (`skip`).
 -/
-import EG.Driver.Util
+import EG.Driver.ShapeView
+import EG.Model.ImageRaw
 import EG.Model.Checked
 import EG.Model.CheckedShapes
 import EG.Model.CheckedLine
@@ -198,9 +199,87 @@ private def handleChk (kernel : String) (t : Toks) : Option String :=
     some (orPanic fmtRect (Chk.TextM.boundingBox ⟨cw, ch, sp, bl⟩ lh b al pos nlines nchars))
   | other => handleChk2 other t     -- triangles, rounded rectangles, sectors, scanlines, glyphs (Driver/ScaleChk2.lean)
 
+/-! ### `scale.shape` / `scale.image`: the result line of the harness from the plain models
+
+The harness counts what its non-allocating `Null` targets are OFFERED (no clipping): on the draw_iter-only
+target (`d1`) a `fill_solid` arrives as `area.points().zip(repeat(colour))`, a `fill_contiguous` as
+`area.points().zip(colours)`; the native target (`d2`) counts `w * h` for `fill_solid` and every colour the
+iterator yields for `fill_contiguous`. `alloc=0` is the model's statement that nothing allocates. -/
+
+private def offered (native : Bool) : Call → Option Nat
+  | .drawIter px => some px.length
+  | .fillSolid a _ => some (a.size.w * a.size.h)
+  | .fillContiguous a cs => some (if native then cs.length else min (a.size.w * a.size.h) cs.length)
+  | .clear _ => none      -- no shape, text or image issues `clear`
+
+private def offeredSum (native : Bool) (calls : List Call) : Option Nat :=
+  calls.foldl (fun acc c => do let a ← acc; let k ← offered native c; pure (a + k)) (some 0)
+
+/-- Largest box area (styled bounding box and primitive's bounding box, in px) for which `scale.shape` is
+served by the model; ops above it are printed `skip` (the plain models build pixel LISTS: a 1024 x 1024
+disc costs seconds). The slice is deterministic in the op text. -/
+private def scaleShapeMaxArea : Nat := 100000
+
+private def scaleShape (t : Toks) : Option String :=
+  match parseShapeView t with
+  | none => none
+  | some (view, _) =>
+    let v := view ⟨0, 0⟩
+    match v.bbox () with
+    | none => some "stuck"
+    | some bb =>
+      if bb.size.w * bb.size.h > scaleShapeMaxArea ∨ v.pbox.size.w * v.pbox.size.h > scaleShapeMaxArea then none
+      else
+        let r : Option String := do
+          let calls ← v.calls ()
+          let px ← v.pixels ()
+          let n1 ← offeredSum false calls
+          let n2 ← offeredSum true calls
+          let n := n1 + n2 + px.length + v.npoints ()
+          let pb := v.pbox
+          let probes : List Pt := [pb.tl, pb.center, bb.tl, bb.center,
+            ⟨pb.tl.x + (pb.size.w : Int), pb.tl.y + (pb.size.h : Int)⟩, ⟨0, 0⟩]
+          let inside := match v.contains with
+            | some f => (probes.filter f).length
+            | none => 0
+          pure s!"ok n={n} in={inside} alloc=0"
+        match r with
+        | some s => some s
+        | none => some "stuck"
+
+/-- `scale.image <bits> <order> w h x y <sub rect> <sub2 rect>`: the image, its sub-image and the nested
+sub-image (`with_center`) drawn on both targets; `some` = number of the 8 probe points with a pixel. Bits
+other than 1/2/4/8/16 use `Rgb888` (24 bpp) on a buffer sized for the `bits` of the op, as the harness does
+(`ImageRaw::new` then rejects a non-empty 32-bpp buffer: `n=0 some=0`). -/
+private def scaleImage (t : Toks) : Option String :=
+  let (bits, t) := t.nat
+  let (o, t) := t.nat
+  let (sz, t) := t.sz
+  let (pos, t) := t.pt
+  let (sub, t) := t.rect
+  let (sub2, _) := t.rect
+  let bpr := (sz.w * bits + 7) / 8
+  let data := (List.range (bpr * sz.h)).map (fun i => (i * 37 + 11) % 256)
+  let mbits := if bits == 1 || bits == 2 || bits == 4 || bits == 8 || bits == 16 then bits else 24
+  match Img.ImageRaw.new mbits (orderOf o) data sz with
+  | .error _ => some "ok n=0 some=0 alloc=0"
+  | .ok im =>
+    let raw : Img.Drawable := .raw im
+    let s1 := raw.subImage sub
+    let s2 := s1.subImage sub2
+    let calls := (Img.Image.new raw pos).draw ++ (Img.Image.new s1 pos).draw ++ (Img.Image.withCenter s2 pos).draw
+    let probes : List Pt := [⟨-1, 0⟩, ⟨0, -1⟩, ⟨0, 0⟩, ⟨(sz.w : Int), 0⟩, ⟨0, (sz.h : Int)⟩,
+      ⟨2147483647, 2147483647⟩, ⟨-2147483648, 3⟩, sub.tl]
+    let some_ := (probes.filter (fun q => (im.pixel q).isSome)).length
+    match offeredSum false calls, offeredSum true calls with
+    | some n1, some n2 => some s!"ok n={n1 + n2} some={some_} alloc=0"
+    | _, _ => none
+
 def handleScale (stream : String) (t : Toks) : Option String :=
   if stream.startsWith "scale.chk." then handleChk (stream.drop 10).toString t
   else if stream == "scale.adapter" then handleScaleAdapter t   -- `calls` jobs only (Driver/ScaleAdapter.lean)
+  else if stream == "scale.shape" then scaleShape t
+  else if stream == "scale.image" then scaleImage t
   else none
 
 end EG.Driver
